@@ -1,8 +1,9 @@
 #define IX_OUTER \
-    __CPROVER_assigns(k, index, p, g_usize, g_ulevel, g_init_calls, g_init_arg, g_choices, g_remaining, __CPROVER_object_whole(g_ev), __CPROVER_object_whole(g_idx), __CPROVER_object_whole(g_down)) \
-    __CPROVER_loop_invariant(k <= g_nvars && g_init_calls == g_nvars - k && g_choices == g_nvars - k) \
-    __CPROVER_loop_invariant(k == 0 || p >= 1) \
-    __CPROVER_loop_invariant(k == g_nvars || g_remaining == index) \
+    __CPROVER_assigns(k, index, p, g_usize, g_ulevel, g_init_calls, g_init_arg, g_choices, g_remaining, g_cur_level, g_skips, __CPROVER_object_whole(g_ev), __CPROVER_object_whole(g_idx), __CPROVER_object_whole(g_down)) \
+    __CPROVER_loop_invariant(k <= g_nvars && g_init_calls <= g_nvars - k && g_skips == g_nvars - k - g_init_calls && g_choices == g_init_calls) \
+    __CPROVER_loop_invariant(0 <= g_cur_level && (unsigned)g_cur_level <= k && ((p >= 1) == (g_cur_level >= 1))) \
+    __CPROVER_loop_invariant(g_choices >= 1 || p == self->node) \
+    __CPROVER_loop_invariant(g_choices == 0 || g_remaining == index) \
     __CPROVER_decreases(k)
 #define IX_INNER \
     __CPROVER_assigns(zmax) \
